@@ -1,7 +1,7 @@
 from .base import *
 
 ID = 'C10'
-THEOREMS = ['C10_wedge', 'C10_geo', 'C10_meet', 'C10_wedge_blades', 'C10_parallel', 'C10_special_hyps_inhabited', 'C10_wedge_value', 'C10_sin_value']
+THEOREMS = ['C10_wedge', 'C10_geo', 'C10_meet', 'C10_wedge_blades', 'C10_parallel', 'C10_special_hyps_inhabited', 'C10_wedge_value', 'C10_sin_value', 'C10_swap_magnitude']
 OWNED = {'GWedge', 'GGeo', 'GMeet'}
 RULE = ('pairs by angle relation (parallel, antiparallel, nearly parallel within 1e-15..1e-6, orthogonal, arbitrary; all 4 grades each side; blades to 2^40) x magnitude relation; wedge both ways, geo vs dot+wedge, '
         'meet vs dual(wedge(dual,dual)), Lagrange identity. non-trivial = owned op result differs from its operands')
